@@ -537,7 +537,7 @@ func ruleR24(c *Ctx) *RuleResult {
 
 // exprTermOf: the epoch-free term of an expression-like function over its own parameters (nil if it is not one).
 func exprTermOf(c *Ctx, fn *ssa.Function) *Term {
-	st := &pstate{b: &gcBuilder{p: c.p, e: c.E(), fn: fn, cutIdx: map[*ssa.BasicBlock]int{}, out: &GCNF{Fn: fn}}, env: map[ssa.Value]*Term{}, onPath: map[*ssa.BasicBlock]bool{}, inl: true}
+	st := &pstate{b: &gcBuilder{p: c.p, e: c.E(), fn: fn, cutIdx: map[string]int{}, out: &GCNF{Fn: fn}}, env: map[ssa.Value]*Term{}, onPath: map[string]bool{}, inl: true}
 	var args []*Term
 	for i := range fn.Params {
 		args = append(args, leaf("p", itoa(i)))
